@@ -11,8 +11,6 @@ def parseParts (s : String) : Option Path :=
 
 def showPath (p : Path) : String := if p.isEmpty then "~" else ",".intercalate (p.map hexOfString)
 
-def FUEL : Nat := 100000
-
 def step (d : DSt) : List String → DSt × String
   | ["new"] => ({}, "ok")
   | ["reg", l, parts] =>
@@ -26,10 +24,9 @@ def step (d : DSt) : List String → DSt × String
   | ["inv", l, parts] =>
       match l.toNat?, parseParts parts with
       | some l, some p =>
-          match invalidate FUEL d.s l p with
+          match invalidate d.s l p with
           | .ok s' => ({ d with s := s' }, "ok")
           | .keyError => (d, "KeyError")
-          | .recursion => (d, "RecursionError")
       | _, _ => (d, "bad-op")
   | ["get", l, parts] =>
       match l.toNat?, parseParts parts with
